@@ -73,6 +73,21 @@ DerVerdict(env, T, v, o) ==
                          ELSE "differs from X.690 DER; expected " \o ToString(std))
 
 ------------------------------------------------------------------------------
+(* C05: PER / UPER output is the X.691 encoding                             *)
+
+PerVerdict(env, T, v, o) ==
+  IF o.enc.st # "ok" THEN V("PER", "skip", "no encoding")
+  ELSE IF ~Admits(env, T, v) THEN V("PER", "skip", "value not admitted")
+  ELSE LET b == o.enc.b
+           al == o.codec = "per"
+           std == PerEncode(env, T, v, al, {})
+       IN IF b = std THEN V("PER", "ok", "")
+          ELSE LET ex == Explaining(LAMBDA S : PerEncode(env, T, v, al, S), b, PerDevs)
+               IN IF ex # "none" THEN V("PER", "dev", ex)
+                  ELSE V("PER", "reject", "differs from X.691; expected " \o ToString(std)
+                                          \o " applicable:" \o ToString(RtApplicable(env, T, v, o.codec)))
+
+------------------------------------------------------------------------------
 (* C16: a strict prefix of an encoding is a decode error                    *)
 
 PrefixVerdict(o) ==
@@ -93,6 +108,7 @@ ObsVerdicts(L, o) ==
            v == L.vals[o.vi]
        IN (IF "RT" \in Checks THEN <<RtVerdict(env, T, v, o)>> ELSE <<>>)
           \o (IF "DER" \in Checks /\ o.codec = "der" THEN <<DerVerdict(env, T, v, o)>> ELSE <<>>)
+          \o (IF "PER" \in Checks /\ o.codec \in {"per", "uper"} THEN <<PerVerdict(env, T, v, o)>> ELSE <<>>)
           \o (IF "PREFIX" \in Checks THEN <<PrefixVerdict(o)>> ELSE <<>>)
 
 LineReport(L) ==
